@@ -250,6 +250,7 @@ def run(chk: Check, only_numeric: bool = False) -> None:
     chk.extra["macro_bound"] = n_macro
     if not only_numeric:
         run_inplace(chk, ix, funcs, sites)
+        run_coerce(chk, ix)
         pass_order(chk, ix)
 
 
@@ -328,3 +329,79 @@ def run_inplace(chk: Check, ix, funcs: dict, sites) -> None:
         else:
             d = funcs.get(cname, {})
             r4.violation(key, where, f"{cname} returns {d.get('returns')}: no in-place CPython API on the way, so the compiled `{nm.value}` creates a new object and only rebinds the target; an alias, an attribute or the caller still sees the old contents (interpreted code mutates the object)")
+
+
+def run_coerce(chk: Check, ix) -> None:
+    """R05.5: coerce() is a no-op only inside one representation and along a subtype edge."""
+    import itertools
+    r5 = chk.rule("R05.5", "LowLevelIRBuilder.coerce, evaluated over (source unboxed, target unboxed, is_runtime_subtype, is_subtype): the value is passed through unchanged only when both sides have the same boxedness, the source type is a subtype of the target and, for two unboxed types, a runtime subtype; unboxed->boxed always boxes; every other combination reaches a conversion or unbox_or_cast (the runtime type check)", floor=16)
+    f = ix.func("mypyc.irbuild.ll_builder.LowLevelIRBuilder.coerce")
+    ATOMS = {"src_type.is_unboxed": "SU", "target_type.is_unboxed": "TU", "is_runtime_subtype(src_type, target_type)": "RS", "is_subtype(src_type, target_type)": "S"}
+
+    def ev(e, env):
+        if isinstance(e, ast.BoolOp):
+            vals = [ev(v, env) for v in e.values]
+            return all(vals) if isinstance(e.op, ast.And) else any(vals)
+        if isinstance(e, ast.UnaryOp) and isinstance(e.op, ast.Not):
+            return not ev(e.operand, env)
+        t = norm(e)
+        if t in ATOMS:
+            return env[ATOMS[t]]
+        if t == "force":
+            return False
+        raise AnalysisError(f"coerce: unrecognised condition `{t[:60]}` in the top-level case analysis")
+
+    def outcome(env):
+        """Which top-level arm is taken: ('box'|'convert'|'unbox_or_cast'|'noop')."""
+        for st in f.node.body:
+            if isinstance(st, ast.If):
+                cur = st
+                while cur is not None:
+                    if ev(cur.test, env):
+                        calls = {call_name(c) for x in cur.body for c in ast.walk(x) if isinstance(c, ast.Call)}
+                        rets = [x for x in cur.body if isinstance(x, ast.Return)]
+                        if rets and isinstance(rets[0].value, ast.Call) and call_name(rets[0].value) == "box" and len(cur.body) == 1:
+                            return "box"
+                        if any(isinstance(x, ast.Return) for x in ast.walk(cur)) and "unbox_or_cast" in calls and len(cur.body) == 1:
+                            return "unbox_or_cast"
+                        if all_paths_return(cur.body):
+                            return "convert"
+                        return "fallthrough"
+                    nxt = cur.orelse
+                    if len(nxt) == 1 and isinstance(nxt[0], ast.If):
+                        cur = nxt[0]
+                    else:
+                        if nxt and all_paths_return(nxt):
+                            return "noop" if any(isinstance(x, ast.Return) and norm(x.value) == "src" for x in nxt) else "convert"
+                        cur = None
+            elif isinstance(st, ast.Return):
+                return "noop" if norm(st.value) == "src" else "convert"
+        return "fallthrough"
+
+    def all_paths_return(stmts):
+        if not stmts:
+            return False
+        last = stmts[-1]
+        if isinstance(last, ast.Return):
+            return True
+        if isinstance(last, ast.If):
+            return all_paths_return(last.body) and bool(last.orelse) and all_paths_return(last.orelse)
+        return False
+
+    from ..cfg import call_name
+    for SU, TU, RS, S in itertools.product([False, True], repeat=4):
+        env = {"SU": SU, "TU": TU, "RS": RS, "S": S}
+        if RS and not S and False:
+            continue
+        got = outcome(env)
+        if SU and not TU:
+            want = {"box"}
+        elif SU == TU and S and (not (SU and TU) or RS):
+            want = {"noop"}
+        else:
+            want = {"convert", "unbox_or_cast"}
+        key = f"coerce(src unboxed={SU}, target unboxed={TU}, runtime subtype={RS}, subtype={S}) -> {'/'.join(sorted(want))}"
+        if got in want:
+            r5.ok(key, f.loc())
+        else:
+            r5.violation(key, f.loc(), f"this combination takes the `{got}` arm: " + ("a value is passed on unchanged across a representation boundary or to a type it is not known to have, without the runtime check (a wrong-typed object reaches native code)" if got == "noop" else "the conversion for this combination changed"))
